@@ -22,8 +22,9 @@ Local Open Scope Z_scope.
 
 (* ------------------------------------------------------------------ makeConstant: the index map *)
 (* Go == on map keys of type interface{}: equal dynamic types and equal contents; a float NaN is
-   not equal to itself and +0 == -0 (so a -0.0 constant that follows a 0.0 constant is given the
-   index of 0.0: see negzero_merges in AssembleProofs.v). *)
+   not equal to itself and +0 == -0.  Since the repair "0.0 and -0.0 do not share a constant-pool
+   entry" makeConstant keeps a float constant that is a zero out of the index map (float_zero
+   below), so the two zeros only meet inside the fields of a by-value struct constant. *)
 Definition num_go_eq (a b : num) : bool :=
   match a, b with
   | NInt k z, NInt k' z' => kind_eqb k k' && (z =? z')
@@ -84,11 +85,20 @@ Fixpoint slice_or_map (v : value) : bool :=
   end.
 
 
+(* reflect.TypeOf(i).Kind() is Float32 / Float64 and reflect.ValueOf(i).Float() == 0: +0.0 or -0.0,
+   also behind a declared float type *)
+Fixpoint float_zero (v : value) : bool :=
+  match v with
+  | VNum (NFlt _ f) => f_is_zero f
+  | VNamed _ x => float_zero x
+  | _ => false
+  end.
+
 (* what makeConstant does with a constant *)
 Inductive hclass :=
 | HKey      (* hashable by contents: looked up in c.index, registered when it is new *)
-| HFresh    (* always appended: kind Slice / Map (hashable = false), or a key that only equals itself
-               (a *regexp.Regexp or another pointer: every occurrence is taken to be its own allocation) *)
+| HFresh    (* always appended: kind Slice / Map or a float zero (hashable = false), or a key that only equals
+               itself (a *regexp.Regexp or another pointer: every occurrence is taken to be its own allocation) *)
 | HPanic.   (* makeConstant panics, Compile returns the error: reflect.TypeOf(nil).Kind() on a nil
                interface, or "hash of unhashable type" (func value, struct with a slice/map/func field) *)
 
@@ -97,7 +107,7 @@ Definition const_class (c : const) : hclass :=
   | CCall _ _ => HKey                (* vm.Call{Name, Size} is a comparable struct *)
   | CRegex _ => HFresh
   | CVal v =>
-      if slice_or_map v then HFresh
+      if slice_or_map v || float_zero v then HFresh
       else match v with
            | VNil => HPanic
            | _ => match field_class v with KVal => HKey | KIdent => HFresh | KPanic => HPanic end
@@ -111,13 +121,14 @@ Definition const_go_eq (a b : const) : bool :=
   | _, _ => false
   end.
 
+Definition is_key (c : const) : bool := match const_class c with HKey => true | _ => false end.
+
 (* c.index[i]: the pool position under which an equal key was registered.  Only HKey constants are
-   ever looked up, and const_go_eq is true only of pool entries that were registered, i.e. of HKey
-   entries (go_eq_only_keys in AssembleProofs.v), so the scan of the whole pool is the map lookup. *)
+   looked up, and only HKey entries of the pool were registered. *)
 Fixpoint pool_find (c : const) (pool : list const) (k : Z) : option Z :=
   match pool with
   | [] => None
-  | d :: r => if const_go_eq d c then Some k else pool_find c r (k + 1)
+  | d :: r => if is_key d && const_go_eq d c then Some k else pool_find c r (k + 1)
   end.
 
 Definition max_uint16 : Z := 65535.   (* math.MaxUint16 *)
@@ -438,19 +449,29 @@ Definition locs_nonzero (locs : list (Z * loc)) : list (Z * loc) :=
 
 (* ------------------------------------------------------------------ the carve-out of the exactness theorem *)
 (* decode gives back the very code that was assembled unless the index map merged two constants
-   that are equal for Go but not identical: the only such pair is 0.0 / -0.0 (as a constant of its
-   own, behind a named type or in a field of a struct constant).  No negative zero = exact. *)
+   that are equal for Go but not identical.  A float zero is never in the index map, so the only
+   such pairs left are by-value struct constants that differ in the sign of a zero FIELD (Go's ==
+   on structs compares the fields with ==).  No negative zero in such a field = exact. *)
 Local Open Scope Z_scope.
 Definition negzero (f : float) : bool :=
   match Prim2SF f with S754_zero true => true | _ => false end.
 
-Fixpoint key_exact (v : value) : bool :=
+(* inside a struct compared by contents *)
+Fixpoint field_exact (v : value) : bool :=
   match v with
   | VNum (NFlt _ f) => negb (negzero f)
-  | VNamed _ x => key_exact x
+  | VNamed _ x => field_exact x
   | VStruct _ false fs =>
       (fix go (l : list (string * value)) : bool :=
-         match l with [] => true | (_, x) :: r => key_exact x && go r end) fs
+         match l with [] => true | (_, x) :: r => field_exact x && go r end) fs
+  | _ => true
+  end.
+
+(* a constant of its own *)
+Fixpoint key_exact (v : value) : bool :=
+  match v with
+  | VNamed _ x => key_exact x
+  | VStruct _ false _ => field_exact v
   | _ => true
   end.
 
